@@ -434,6 +434,7 @@ pub fn run_property(p: &dyn Prop, tier: Tier, seed: u64) -> RunResult {
         "evaluations": evals,
         "distinct_nontrivial": nontrivial,
         "rule": p.rule(),
+        "distinct_how": "cases are de-duplicated by the SHA-256 of their canonical record (duplicates are executed but not counted; see duplicate_cases); the evaluations inside one case come from a product / subset / position enumerator that yields no value twice, and each is counted non-trivial only if it reached the operation under test (see rule)",
         "samples": samples,
         "exhaustive": exhaustive,
         "bound_completed": if exhaustive { p.bound(tier) } else { format!("wall cap hit after {} of {} cases; bound NOT completed: {}", n_exec, total_cases, p.bound(tier)) },
